@@ -3,6 +3,7 @@ import gtirb
 
 from harness.c01 import expected_chunks
 from harness.ir import IRProp
+from vlib import common as C
 
 
 def observe(module, B, rec):
@@ -96,6 +97,26 @@ class C06(IRProp):
     @staticmethod
     def whole_delete(case, i):
         return any(bi == i and t == "del" and off == 0 and ln == case.size(i) for (bi, t, off, ln, patch, _) in case.mods)
+
+    def oracle(self, tier, ctx, boosted):
+        res = super().oracle(tier, ctx, boosted)
+        from harness import funcins
+        n = {"quick": 300, "thorough": 3000}["thorough" if boosted else tier]
+        rnd = C.rng(self.tag + "-funcins")
+        done = 0
+        for _ in range(n):
+            sd = rnd.randrange(1 << 30)
+            r = funcins.run(sd)
+            if r["error"]:
+                continue
+            done += 1
+            for w in funcins.check_tables(r)[:1]:
+                res["violations"].append(dict(what="register_insert_function: " + w, input={"funcins_seed": sd, "functions": [t for _, _, t in r["inserted"]]}, finding=None))
+        res["evaluations"] += done
+        res["samples"].append({"oracle": "rewrites that add 1-3 functions with register_insert_function: each is in all three tables, named by its symbol, with the "
+                                         "symbol's block as only entry, owning only new code blocks", "runs": done})
+        res["violations"] = res["violations"][:12]
+        return res
 
 
 PROP = C06()
